@@ -9,6 +9,7 @@ Layer B: channels
   prheader     – every PRO the code generates (direct calls for header versions 4.0-4.3 and
                  through the booted app: init segments and manifests) vs generatePro / parsePro /
                  decodeUtf16le / playreadyPssh of the model
+  b64url       – ClearkeyHandler.base64url_encode/decode vs b64urlEncode/b64urlDecode
   clearkey_lic – POST /clearkey vs the model of the handler
   cp_elements  – ContentProtection elements of rendered manifests vs the model's hooks
 Layer C: the property text with independent implementations (c11_oracle: hashlib key-seed
@@ -81,11 +82,17 @@ def exc_token(e: BaseException) -> str:
 
 
 def drive(lines, ch: Channel):
-    try:
-        return common.run_driver(lines)
-    except Exception as e:
-        ch.errors.append(f"driver: {e}")
-        return ["driver-error"] * len(lines)
+    import time
+    for attempt in range(40):
+        try:
+            return common.run_driver(lines)
+        except FileNotFoundError:
+            time.sleep(3)          # another check is re-linking the shared driver binary
+        except Exception as e:
+            ch.errors.append(f"driver: {e}")
+            return ["driver-error"] * len(lines)
+    ch.errors.append("driver binary missing")
+    return ["driver-error"] * len(lines)
 
 
 def expected_la_url(template: str | None, keys: list[tuple[bytes, bytes, bool]], default_kid: bytes,
@@ -449,6 +456,8 @@ def ch_prheader(ctx, env) -> Channel:
             continue
         kids = [bytes.fromhex(k["kid"]) for k in c["keys"]]
         ls = model_lines_for_pro(im["pro"], im["wrm"], kids) + [f"utf16dec {lib.hx(im['wrm'])}"]
+        ls.append(f"wrmbytes {lib.text_cp(im['wrm'].decode('utf-16-le', 'surrogatepass'))}")
+        ls.append(f"decodepssh {lib.hx(im['pssh'])}")
         index.append((c, im, len(lines)))
         lines += ls
     out = drive(lines, ch)
@@ -459,8 +468,20 @@ def ch_prheader(ctx, env) -> Channel:
             for f in oracle_prheader_direct(env, c, im):
                 ch.oracle_failures.append(f)
     for c, im, at in index:
-        m_parse, m_gen, m_pssh, m_utf = out[at:at + 4]
-        ver = orc.read_wrmheader(orc.parse_pro(im["pro"])[0][2])["version"] if True else None
+        m_parse, m_gen, m_pssh, m_utf, m_wrm, m_dec = out[at:at + 6]
+        if m_wrm != "driver-error" and m_wrm != im["wrm"].hex():
+            ch.disagreements.append({"case": c, "what": "wrmBytes", "model": m_wrm[:120], "impl": im["wrm"].hex()[:120]})
+        try:
+            pw = lib.parse_standalone_pssh(im["pssh"])
+            want_dec = f"{pw.version} {lib.hx(pw.system_id)} {lib.hexlist(pw.kids)} {lib.hx(pw.data)}"
+        except Exception:
+            want_dec = "err"
+        if m_dec != "driver-error" and m_dec != want_dec:
+            ch.disagreements.append({"case": c, "what": "decodePssh", "model": m_dec[:120], "impl": want_dec[:120]})
+        try:
+            ver = orc.read_wrmheader(orc.parse_pro(im["pro"])[0][2])["version"]
+        except Exception:
+            ver = "unreadable"
         ch.count(f"direct header={ver} keys={len(c['keys'])}")
         ch.nontrivial.add(im["pro"])
         compare_parsepro(m_parse, im["records"], ch, c, [])
@@ -483,8 +504,9 @@ def ch_prheader(ctx, env) -> Channel:
         ch.evaluations += 1
         res = impl_prheader_http(env, c)
         if res.get("status") != 200:
-            ch.count(f"http {c['source']} status={res.get('status')}")
-            ch.oracle_failures.append({"what": f"request answered {res.get('status')}", "case": c})
+            ch.count(f"http {c['source']} status={res.get('status')} (4xx: refused, not judged)")
+            if res.get("status", 0) >= 500:
+                ch.oracle_failures.append({"what": f"request answered {res.get('status')}", "case": c})
             continue
         if res.get("malformed_xml"):
             ch.count("manifest is not well-formed XML (C05's subject) - not judged")
@@ -629,7 +651,7 @@ def impl_prheader_http(env, c) -> dict:
 def oracle_prheader_http(env, c, res=None) -> list[dict]:
     res = res or impl_prheader_http(env, c)
     if res.get("status") != 200:
-        return [{"what": f"request answered {res.get('status')}", "case": c}]
+        return [{"what": f"request answered {res.get('status')}", "case": c}] if res.get("status", 0) >= 500 else []
     store = env.stored_keys()
     fails = []
     la = c["la"][1] if c.get("la") else None
@@ -850,6 +872,75 @@ def ch_clearkey(ctx, env) -> Channel:
     return ch
 
 
+def ch_b64url(ctx) -> Channel:
+    """ClearkeyHandler.base64url_encode / base64url_decode called directly"""
+    import binascii
+    from dashlive.server.requesthandler.clearkey import ClearkeyHandler
+    ch = Channel("b64url", rule=(
+        "ClearkeyHandler.base64url_encode on random byte strings of 0..48 bytes and base64url_decode on their "
+        "encodings, on non-canonical / truncated variants and on strings of the standard alphabet vs the Lean "
+        "b64urlEncode / b64urlDecode; oracle: decode(encode b) = b and no + / = in the output; non-trivial = "
+        "length not a multiple of 3 or containing a - or _; distinct by input"))
+    rng = ctx.rng("b64url")
+    blobs = [b"", b"\xfb\xff", b"\xff\xfe\xfd", c11_env.KID_A] + [
+        bytes(rng.randrange(256) for _ in range(rng.randrange(0, 49))) for _ in range(ctx.scale(600, 10000))]
+    alphabet = "ABCDEFGHIJKLMNOPQRSTUVWXYZabcdefghijklmnopqrstuvwxyz0123456789-_+/"
+    texts = []
+    for b in blobs[:ctx.scale(300, 5000)]:
+        t = orc.b64url(b)
+        r = rng.random()
+        if r < .3 and t:
+            t = t[:-1]
+        elif r < .5 and t:
+            t = t[:-1] + rng.choice(alphabet)
+        elif r < .6:
+            t = "".join(rng.choice(alphabet) for _ in range(rng.randrange(0, 30)))
+        texts.append(t)
+    out = drive([f"b64enc {lib.hx(b)}" for b in blobs] + [f"b64dec {lib.text_cp(t)}" for t in texts], ch)
+    for b, mo in zip(blobs, out[:len(blobs)]):
+        ch.evaluations += 1
+        got = ClearkeyHandler.base64url_encode(None, b)
+        ch.count(f"encode len%3={len(b) % 3}")
+        if len(b) % 3 or "-" in got or "_" in got:
+            ch.nontrivial.add(("e", b))
+        if mo != "driver-error" and lib.cp_text(mo) != got:
+            ch.disagreements.append({"what": "b64urlEncode", "bytes": b.hex(), "model": lib.cp_text(mo), "impl": got})
+        back = None
+        try:
+            back = ClearkeyHandler.base64url_decode(None, got)
+        except Exception as e:
+            back = repr(e)
+        if back != b or any(c in got for c in "+/="):
+            ch.oracle_failures.append({"what": "base64url_decode(base64url_encode(b)) != b or output not url-safe/unpadded",
+                                       "case": {"kind": "b64url", "bytes": b.hex()}, "encoded": got})
+    for t, mo in zip(texts, out[len(blobs):]):
+        ch.evaluations += 1
+        try:
+            got = "ok:" + lib.hx(ClearkeyHandler.base64url_decode(None, t))
+        except (binascii.Error, ValueError):
+            got = "error"
+        except Exception as e:
+            got = exc_token(e)
+        ch.count(f"decode len%4={len(t) % 4} -> {got.split(':')[0]}")
+        ch.nontrivial.add(("d", t))
+        if mo not in ("driver-error", "outside") and mo != got:
+            ch.disagreements.append({"what": "b64urlDecode", "text": t, "model": mo, "impl": got})
+    return ch
+
+
+def oracle_b64url(case) -> list[dict]:
+    from dashlive.server.requesthandler.clearkey import ClearkeyHandler
+    b = bytes.fromhex(case["bytes"])
+    got = ClearkeyHandler.base64url_encode(None, b)
+    try:
+        back = ClearkeyHandler.base64url_decode(None, got)
+    except Exception as e:
+        back = repr(e)
+    if back != b or any(c in got for c in "+/="):
+        return [{"what": "base64url_decode(base64url_encode(b)) != b or output not url-safe/unpadded", "case": case}]
+    return []
+
+
 # ---------------------------------------------------------------- cp_elements
 
 def gen_cp_cases(ctx, rng) -> list[dict]:
@@ -942,7 +1033,7 @@ def model_shape(ctx_line: str) -> dict | None:
 def oracle_cp(env, c, res=None) -> list[dict]:
     res = res or impl_cp(env, c)
     if res["status"] != 200:
-        return [{"what": f"manifest request answered {res['status']}", "case": c}]
+        return [{"what": f"manifest request answered {res['status']}", "case": c}] if res["status"] >= 500 else []
     req = lib.requested(c["drm"])
     if req is None:
         return []
@@ -1041,8 +1132,9 @@ def ch_cp_elements(ctx, env) -> Channel:
     for c, res, mo in zip(cases, results, out):
         ch.evaluations += 1
         if res["status"] != 200:
-            ch.count(f"status {res['status']}")
-            ch.oracle_failures.append({"what": f"manifest request answered {res['status']}", "case": c})
+            ch.count(f"status {res['status']} (4xx: refused, not judged)")
+            if res["status"] >= 500:
+                ch.oracle_failures.append({"what": f"manifest request answered {res['status']}", "case": c})
             continue
         if res.get("malformed_xml"):
             ch.count("manifest is not well-formed XML (C05's subject) - not judged")
@@ -1076,6 +1168,7 @@ def channels(ctx):
     yield ch_prcrypto(ctx)
     env = c11_env.get_env()
     yield ch_prheader(ctx, env)
+    yield ch_b64url(ctx)
     yield ch_clearkey(ctx, env)
     yield ch_cp_elements(ctx, env)
 
@@ -1090,6 +1183,8 @@ def run_oracle(env, case) -> list[dict]:
         return oracle_prheader_http(env, case)
     if kind == "clearkey":
         return oracle_clearkey(env, case)
+    if kind == "b64url":
+        return oracle_b64url(case)
     if kind == "cp":
         return oracle_cp(env, case)
     if kind == "cp_key_union":
